@@ -147,12 +147,19 @@ Proof.
     + destruct (ctodo c) as [|y t] eqn:T.
       * exists CloseW. unfold chan_step. cbn [ceof cgot ctodo cpipe pipe_close_w wclosed].
         cbn. rewrite !orb_true_r. reflexivity.
-      * exists (Prod 1). unfold chan_step. rewrite W. cbn [firstn].
-        unfold pipe_write. rewrite Hr. unfold pipe_free. rewrite Q. cbn [length].
-        replace (Nat.min 1 (pcap (cpipe c) - 0)) with 1 by lia. cbn [Nat.eqb].
-        cbn [ceof cgot ctodo cpipe skipn length]. rewrite T. cbn [length].
-        replace (length t <? S (length t)) with true by (symmetry; apply Nat.ltb_lt; lia).
-        reflexivity.
+      * exists (Prod 1). unfold chan_step. rewrite W.
+        destruct (pipe_write (cpipe c) (firstn 1 (ctodo c))) as [p' r] eqn:E.
+        pose proof (pipe_write_spec _ _ _ _ E Hr) as S. rewrite T in S. cbn [firstn] in S.
+        destruct r as [n| |e].
+        -- destruct S as (Hn & _ & _ & _ & _ & _ & Hpos & _).
+           assert (0 < n) by (apply Hpos; discriminate).
+           assert (L : forall a b, 0 < b -> 0 < a -> (a - b <? a) = true)
+             by (intros; apply Nat.ltb_lt; lia).
+           cbn [ctodo cgot ceof cpipe]. rewrite skipn_length. rewrite ?T. cbn [length].
+           rewrite L by lia. reflexivity.
+        -- destruct S as (_ & _ & F). unfold pipe_free in F. rewrite Q in F.
+           cbn [length] in F. lia.
+        -- destruct S.
   - exists (Cons 1). unfold chan_step, pipe_read. cbn [Nat.eqb]. rewrite Q.
     cbn [ceof cgot ctodo cpipe firstn]. rewrite app_length. cbn [length].
     replace (length (cgot c) <? length (cgot c) + 1) with true
@@ -174,7 +181,7 @@ Proof.
   remember (Nat.min (length (y :: firstn k t)) (pipe_free (cpipe c))) as m eqn:Em.
   unfold pipe_free in Em. cbn [length] in Em.
   destruct (Nat.eqb_spec m 0) as [E|E].
-  - rewrite W, Ht. rewrite Nat.ltb_irrefl. cbn. rewrite Nat.ltb_irrefl.
+  - rewrite ?W, ?Ht, !Nat.ltb_irrefl.
     destruct (ceof c); cbn; split; auto; intros _; lia.
   - cbn [ctodo cgot ceof cpipe]. split; [|intros F; lia].
     intros F. exfalso.
